@@ -7,6 +7,7 @@ answered with 301/302/303/307 and a `Location` that names position i+1 as
   abs        http://127.0.0.1:<port>/<quoted path>?<query>      (any server: port change)
   abshost    http://localhost:<port>/<quoted path>?<query>      (any server)
   relpath    /<quoted path>?<query>                             (same server)
+  relquery   ?<query>                                           (same server, same path, new query)
   relseg     <quoted segment(s)>?<query>, ../<segment>          (same server, resolved
              against the current request path as RFC 3986 / urllib.parse.urljoin does)
 
@@ -85,7 +86,7 @@ def _uniq(pairs):
 qargs_st = st.lists(st.tuples(token, qval), max_size=3).map(_uniq)
 hop_st = st.fixed_dictionaries({
     "code": st.sampled_from(sorted(CODES)),
-    "style": st.sampled_from(["abs", "abs", "abshost", "relpath", "relpath", "relseg", "relseg", "reldotdot"]),
+    "style": st.sampled_from(["abs", "abs", "abshost", "relpath", "relpath", "relseg", "relseg", "reldotdot", "relquery"]),
     "server": st.integers(0, 2),
     "dirs": st.lists(dir_seg, max_size=2),
     "leaf": seg_body,
@@ -117,6 +118,14 @@ def build_chain(case):
             server = h["server"] % n
             path = "/" + "/".join(list(h["dirs"]) + [leaf])
             ref = None
+        elif style == "relquery":
+            # a reference with an empty path (`?query`): same server, same path, new query (RFC 3986 5.2.2)
+            server = cur_server
+            path = cur_path
+            ref = ""
+            positions.append((server, path, [["hop", str(i + 1)]] + [q for q in h["qargs"] if q[0] != "hop"]))
+            hops.append({"code": h["code"], "style": style, "ref": ref, "bodylen": h["bodylen"]})
+            continue
         elif style == "relpath":
             server = cur_server
             path = "/" + "/".join(list(h["dirs"]) + [leaf])
@@ -158,7 +167,8 @@ def make_app(idx, table, log):
     def app(environ, start_response):
         log.append((idx, environ["REQUEST_METHOD"], environ["PATH_INFO"], environ["QUERY_STRING"],
                     environ.get("HTTP_HOST")))
-        act = table.get((idx, environ["PATH_INFO"]))
+        qkey = tuple((k, str(v)) for k, v in parse_qsl(environ["QUERY_STRING"], keep_blank_values=True))
+        act = table.get((idx, environ["PATH_INFO"], qkey)) or table.get((idx, environ["PATH_INFO"]))
         if act is None:
             body = b"unrouted"
             start_response("404 Not Found", [("Content-Length", str(len(body)))])
@@ -210,12 +220,13 @@ def run_case(case):
             valets.append(valet)
             ports.append(port)
         locations = []
+        def key(pos):      # routed by server, path and query (a `?query` reference keeps the path)
+            return (pos[0], pos[1], tuple((k, str(v)) for k, v in pos[2]))
         for i, hop in enumerate(hops):
             loc = location(hop, positions[i + 1], ports)
             locations.append(loc)
-            table[(positions[i][0], positions[i][1])] = {"kind": "redirect", "code": hop["code"], "location": loc,
-                                                         "bodylen": hop["bodylen"]}
-        table[(positions[-1][0], positions[-1][1])] = {"kind": "final", "pos": len(positions) - 1}
+            table[key(positions[i])] = {"kind": "redirect", "code": hop["code"], "location": loc, "bodylen": hop["bodylen"]}
+        table[key(positions[-1])] = {"kind": "final", "pos": len(positions) - 1}
 
         s0, p0, q0 = positions[0]
         patron = clienting.Patron(hostname="127.0.0.1", port=ports[s0], store=store, bufsize=65536)
